@@ -8,6 +8,7 @@ import (
 	"github.com/orda-io/orda/client/pkg/internal/datatypes"
 	"github.com/orda-io/orda/client/pkg/model"
 	"github.com/orda-io/orda/client/pkg/operations"
+	"github.com/orda-io/orda/client/pkg/types"
 	"github.com/orda-io/orda/client/pkg/utils"
 	"github.com/wI2L/jsondiff"
 	"strconv"
@@ -272,7 +273,7 @@ func (its *document) PutToObject(key string, value interface{}) (Document, error
 	if key == "" || value == nil {
 		return nil, errors.DatatypeIllegalParameters.New(its.L(), "neither empty key nor null value is not allowed")
 	}
-	op := operations.NewDocPutInObjOperation(its.snapshot().getCreateTime(), key, value)
+	op := operations.NewDocPutInObjOperation(its.snapshot().getCreateTime(), key, types.ConvertToJSONSupportedValue(value))
 	removed, err := its.SentenceInTx(its.TxCtx, op, true)
 	if err != nil {
 		return nil, err
@@ -343,6 +344,7 @@ func (its *document) InsertToArray(pos int, values ...interface{}) (Document, er
 	if err := validateNoNullValue(its, values); err != nil {
 		return its, err
 	}
+	values, _ = types.ConvertValueList(values)
 	op := operations.NewDocInsertToArrayOperation(its.snapshot().getCreateTime(), pos, values)
 	if _, err := its.SentenceInTx(its.TxCtx, op, true); err != nil {
 		return its, err
@@ -391,6 +393,7 @@ func (its *document) UpdateManyInArray(pos int, values ...interface{}) ([]Docume
 	if err := validateNoNullValue(its, values); err != nil {
 		return nil, err
 	}
+	values, _ = types.ConvertValueList(values)
 	op := operations.NewDocUpdateInArrayOperation(its.snapshot().getCreateTime(), pos, values)
 	oldOnes, err := its.SentenceInTx(its.TxCtx, op, true)
 	if err != nil {
